@@ -17,6 +17,21 @@ def gen_strings(alpha, maxlen):
             yield "".join(t)
 
 
+def canon_table(p):
+    """What Path::canonicalize answers for the directory part of the absolute path `p` and for each of its proper leading
+    parts (as Path::components spells them): `;`-separated hex pairs `<path>=<canonical>`; `!` when none exists."""
+    dn = p[:p.rfind("/") + 1]
+    keys = [dn]
+    cs = [c for c in dn.split("/") if c not in ("", ".")]
+    for k in range(len(cs) - 1, -1, -1):
+        keys.append("/" + "/".join(cs[:k]))
+    out = []
+    for k in keys:
+        if os.path.exists(k):
+            out.append("%s=%s" % (hx(k), hx(os.path.realpath(k))))
+    return ";".join(out) or "!"
+
+
 def symlink_level(ctx, rng, viol):
     """A real directory tree with symlinked directories: every spelling of one file, from every working
     directory, must give the same database key (relpath to the project base); model and implementation are also
@@ -34,11 +49,16 @@ def symlink_level(ctx, rng, viol):
         for f in files:
             pr.write(f, "x")
         base = pr.root
+        missing_dirs = ("sub/new/gen.out", "lib/a/b/c.o")
         alias = {"sub/deep/out": ["sub/deep/out", "./sub//deep/out", "lnk/deep/out", "sub/../lnk/deep/out", "abs/out", "sub/other/../deep/out", "lnk/up/../sub/deep/out", "sub/up/../lnk/deep/./out"],
                  "lib/x.o": ["lib/x.o", "sub/up/x.o", "lnk/up/x.o", "lib2/../lib/x.o", "./lib/./x.o"],
                  "lib2/out": ["lib2/out", "lib/../lib2/out", "sub/up/../lib2/out"],
                  "top": ["top", "./top", "sub/../top", "lnk/../top", "lib/../top"],
-                 "sub/other/z": ["sub/other/z", "lnk/other/z", "abs/../other/z"]}
+                 "sub/other/z": ["sub/other/z", "lnk/other/z", "abs/../other/z"],
+                 # directories that do not exist yet (a script will create them): below a symlinked directory the name must
+                 # still be the one through the real path
+                 "sub/new/gen.out": ["sub/new/gen.out", "lnk/new/gen.out", "abs/../new/gen.out", "sub/deep/../new/gen.out", "lnk/newer/../new/./gen.out"],
+                 "lib/a/b/c.o": ["lib/a/b/c.o", "sub/up/a/b/c.o", "lnk/up/a/b/c.o", "lib2/../lib/a//b/c.o", "sub/up/a/x/../b/c.o"]}
         cwds = ["", "sub", "sub/deep", "lib", "lnk", "lnk/deep", "abs"]
         stats["cwds"] = len(cwds)
         for f, sps in alias.items():
@@ -76,11 +96,7 @@ def symlink_level(ctx, rng, viol):
                 for (t, form) in meta:
                     cw = os.path.realpath(cwdp)
                     tabs = t if t.startswith("/") else (cw + "/" + t)
-                    dn = tabs[:tabs.rfind("/") + 1]
-                    ct = os.path.realpath(dn) if os.path.exists(dn) else None
-                    bdn = base[:base.rfind("/") + 1]
-                    cb = os.path.realpath(bdn) if os.path.exists(bdn) else None
-                    mreqs.append("relpath-full %s %s %s %s %s" % (hx(cw), hx(t), hx(base), hx(ct) if ct else "!", hx(cb) if cb else "!"))
+                    mreqs.append("relpath-full %s %s %s %s %s" % (hx(cw), hx(t), hx(base), canon_table(tabs), canon_table(base)))
                 mans = run_lines(MODEL, mreqs)
                 for (t, form), g, m, q in zip(meta, got, mans, mreqs):
                     if g != m:
